@@ -387,6 +387,38 @@ class EWrite(El):
         return common_b(kind, j, w.fs)
 
 
+class StrLike(object):
+    """not a string; str() of it is one"""
+
+    def __init__(self, text):
+        self.text = text
+
+    def __str__(self):
+        return self.text
+
+    def __repr__(self):
+        return "StrLike(%r)" % self.text
+
+    def __eq__(self, other):
+        return type(other) is StrLike and other.text == self.text
+
+    def __ne__(self, other):
+        return not self == other
+
+    __hash__ = None
+
+
+def filetype_of(kind):
+    """("filetype-csvx" -> "csvx"; "filetype-{dict}csv" -> a dictionary with the key csv;
+    "filetype-{obj}csv" -> an object that is not a string but prints as csv), extension"""
+    name = kind[9:]
+    if name.startswith("{dict}"):
+        return {name[6:]: True}, name[6:]
+    if name.startswith("{obj}"):
+        return StrLike(name[5:]), name[5:]
+    return name, name
+
+
 TEMPLATE = "%% t\n\\input{\\VAR{ output.filepath }}\n%% \\VAR{ plot.name }"
 
 
@@ -394,7 +426,7 @@ class ERender(El):
     name = "RenderLaTeX"
     a_kinds = ["csv", "csv-template-in-context"]
     b_kinds = COMMON_B + ["str", "tex-typed", "pdf-typed", "hist-ctx", "write-false", "nondict-output",
-                          "filetype-csvx", "filetype-CSV"]
+                          "filetype-csvx", "filetype-CSV", "filetype-{dict}csv", "filetype-{obj}csv"]
 
     def options(self, tape):
         # the template comes from the element's default, from context.output.template only
@@ -447,7 +479,7 @@ class ERender(El):
         if kind == "nondict-output":
             return (j, {"output": "raw"})
         if kind.startswith("filetype-"):
-            return ("out/b%d.csv" % j, {"output": {"filetype": kind[9:], "filepath": "out/b%d.csv" % j},
+            return ("out/b%d.csv" % j, {"output": {"filetype": filetype_of(kind)[0], "filepath": "out/b%d.csv" % j},
                                         "plot": {"name": "b"}})
         return common_b(kind, j, w.fs)
 
@@ -458,6 +490,7 @@ class ELatex(El):
     a_kinds = ["tex-new", "tex-pdf-exists-changed", "tex-pdf-exists-unchanged", "tex-pdf-exists-nokey"]
     b_kinds = COMMON_B + ["str", "csv-typed", "pdf-typed", "hist-ctx", "nondict-output",
                           "filetype-texinfo", "filetype-text", "filetype-TEX", "filetype-latex",
+                          "filetype-{dict}tex", "filetype-{obj}tex",
                           "fileext-tex-no-filetype"]
 
     def options(self, tape):
@@ -498,7 +531,8 @@ class ELatex(El):
             return ("out/b%d.tex" % j, {"output": {"filename": "b%d" % j, "fileext": "tex"}})
         if kind.startswith("filetype-"):
             # file types that merely resemble the selected one
-            return ("out/b%d.%s" % (j, kind[9:]), {"output": {"filetype": kind[9:], "changed": True}})
+            ft, ext = filetype_of(kind)
+            return ("out/b%d.%s" % (j, ext), {"output": {"filetype": ft, "changed": True}})
         return common_b(kind, j, w.fs)
 
 
@@ -506,7 +540,8 @@ class EPng(El):
     name = "PDFToPNG"
     a_kinds = ["pdf-new", "pdf-png-exists-changed", "pdf-png-exists-unchanged", "pdf-png-exists-nokey"]
     b_kinds = COMMON_B + ["str", "csv-typed", "tex-typed", "png-typed", "nondict-output",
-                          "filetype-pdfa", "filetype-PDF", "filetype-xpdf"]
+                          "filetype-pdfa", "filetype-PDF", "filetype-xpdf",
+                          "filetype-{dict}pdf", "filetype-{obj}pdf"]
 
     def options(self, tape):
         return {"overwrite": tape.chance(1, 5, "overwrite"), "format": tape.choice(["png", "jpeg"], "format")}
@@ -543,7 +578,8 @@ class EPng(El):
         if kind == "nondict-output":
             return ("out/b%d.pdf" % j, {"output": "pdf"})
         if kind.startswith("filetype-"):
-            return ("out/b%d.%s" % (j, kind[9:]), {"output": {"filetype": kind[9:], "changed": True}})
+            ft, ext = filetype_of(kind)
+            return ("out/b%d.%s" % (j, ext), {"output": {"filetype": ft, "changed": True}})
         return common_b(kind, j, w.fs)
 
 
